@@ -23,7 +23,14 @@ pub struct RustDocument {
     pub(crate) soap_ports: Vec<Rc<SoapPort>>,
     pub(crate) soap_bindings: Vec<Rc<SoapBinding>>,
     pub(crate) soap_services: Vec<SoapService>,
+    /// nesting depth of forward-reference lookups in the XML tree (see `find_node_by_xml_name`)
+    forward_lookup_depth: usize,
 }
+
+/// A forward reference is resolved by converting the referenced XML node on the spot, which may
+/// in turn meet further forward references. Self- and mutually-referential components would
+/// recurse forever, so the nesting is bounded.
+const MAX_FORWARD_LOOKUP_DEPTH: usize = 64;
 
 impl RustDocument {
     pub fn init(doc: &Document) -> Self {
@@ -57,6 +64,7 @@ impl RustDocument {
             soap_ports: Vec::new(),
             soap_bindings: Vec::new(),
             soap_services: Vec::new(),
+            forward_lookup_depth: 0,
         }
     }
 
@@ -148,8 +156,15 @@ impl RustDocument {
             return Some(rust_node.clone());
         }
 
-        let alt_node = try_to_find_node_by_xml_name_in_xml_doc(start_node, xml_name, namespace, self).ok()?;
-        Some(alt_node.into())
+        if self.forward_lookup_depth >= MAX_FORWARD_LOOKUP_DEPTH {
+            return None;
+        }
+
+        self.forward_lookup_depth += 1;
+        let alt_node = try_to_find_node_by_xml_name_in_xml_doc(start_node, xml_name, namespace, self);
+        self.forward_lookup_depth -= 1;
+
+        Some(alt_node.ok()?.into())
     }
 
     pub fn find_message_by_xml_name(&self, xml_name: &str, _namespace: Option<&Namespace>) -> Option<&Rc<SoapMessage>> {
